@@ -1196,7 +1196,7 @@ func c03RetryReloads(c *Ctx, m *Module) {
 			if w != nil {
 				where = m.Pos(w.Pos())
 			}
-			r.Check("C03.locking", fmt.Sprintf("%s/update #%d: a failed compare-and-swap is retried only after the state was loaded again", short(fn.Name()), n), m.Pos(u.Pos()), w == nil,
+			r.Check("C03.locking", fmt.Sprintf("%s/update #%d: a failed compare-and-swap is retried only after the state was loaded again", short(refName(fn)), n), m.Pos(u.Pos()), w == nil,
 				"after update() fails, the next update() on the same local state is reached without `state = c.state.load()` in between (at "+where+"): the retry compares with a stale value and can spin for ever")
 		}
 	}
